@@ -8,7 +8,7 @@ from sysloss.system import System
 from sysloss.components import Source, Converter, PLoad, RLoad, ILoad, LinReg, RLoss
 
 PROP = "C18"
-ANS = {"c": (0.12, 0.0, 0.0), "v": (0.03, -0.1, 0.0), "r": (0.02, 0.0, 0.05)}  # six steps of any kind keep the battery alive
+ANS = {"c": (0.12, 0.0, 0.0), "v": (0.03, -0.1, 0.0), "r": (0.02, 0.0, 0.05), "z": (0.02, 0.0, "zero")}  # six steps of any kind keep the battery alive
 TERM = {"Z": "capzero", "K": "vcut", "U": "vbelow"}
 PHASES = {"none": None, "two": {"a": 10.0, "b": 25.0}, "three": {"a": 10.0, "b": 25.0, "c": 5.0}}
 
@@ -85,7 +85,7 @@ def run_seq(variant, phname, seq, cutoff=3.0, cap0=0.01, V0=3.7, R0=0.1, fault=N
             dc, dv, dr = ANS[a]
             st[0] -= dc * cap0
             st[1] += dv
-            st[2] += dr
+            st[2] = 0.0 if dr == "zero" else st[2] + dr   # "z": the model reports an impedance of exactly 0
         return tuple(st)
 
     exc = log = None
@@ -183,6 +183,10 @@ def gen_cases(tier):
                 for body in itertools.product("cvr", repeat=k):
                     for end in "ZKU":
                         yield dict(variant=variant, phases=phname, seq="".join(body) + end)
+                if k <= 3:
+                    for body in itertools.product("cvrz", repeat=k):
+                        if "z" in body:
+                            yield dict(variant=variant, phases=phname, seq="".join(body) + "Z")
             if phname != "none":  # battery with its own phase list (a proper subset of the phases)
                 for bpc in ([0], [1]) if phname == "two" else ([0, 2], [1]):
                     for k in range(0, min(K, 4) + 1):
@@ -206,7 +210,7 @@ def main(tier):
         run.require(c in run.classes, "class %s never observed" % c)
     return run.finish(
         level="model_checking",
-        rule="E3: all answer sequences over {capacity step, voltage step, impedance step} of length 0..%d, each followed by every terminator {capacity->0, voltage==cutoff, voltage<cutoff}, "
+        rule="E3: all answer sequences over {capacity step, voltage step, impedance step, impedance -> exactly 0} of length 0..%d, each followed by every terminator {capacity->0, voltage==cutoff, voltage<cutoff}, "
              "x {no phases, 2 phases, 3 phases with per-phase loads and a converter active in 2 of 3} x {battery is the only source, battery is the second of two sources} x {battery always on, battery switched off in a subset of the phases}; plus non-source / "
              "unknown battery names. Oracle: every dfunc call receives the phase duration (3.6*cap0/I without phases) and the battery Iout of a FRESH system holding the battery's present (V,R) "
              "in that phase; pfunc called once; log = initial state + every live state, strictly increasing accumulated time, no dead state. states = executions, transitions = callback invocations. "
